@@ -467,8 +467,18 @@ fn reader_item<T: CInt>(it: &Item) -> Outcome {
     // last two cost a call per few bytes, so they get one block in sixteen each)
     let (style, mode) = if it.plain { (0, 0) } else { (rng.below(4), [0, 0, 0, 1, 1, 1, 1, 1, 1, 1, 1, 1, 1, 1, 2, 3][rng.below(16) as usize]) };
     let mut text: Vec<u8> = Vec::with_capacity(vals.len() * 8);
+    let zero_block = !it.plain && rng.chance(1, 4);
     for v in &vals {
-        render(*v, &mut text);
+        if zero_block && rng.chance(1, 16) {
+            // leading zeros are part of a valid decimal token: "-007", "000000000000000000042"
+            let start = text.len();
+            render(*v, &mut text);
+            let at = if text[start] == b'-' { start + 1 } else { start };
+            let zeros = if rng.chance(1, 4) { rng.urange(4, 45) } else { rng.urange(1, 3) };
+            text.splice(at..at, std::iter::repeat(b'0').take(zeros));
+        } else {
+            render(*v, &mut text);
+        }
         if it.plain {
             text.push(b' ');
             continue;
